@@ -122,7 +122,7 @@ class Stalled(Exception):
 
 
 class RecordingBudget(SearchBudget):
-    def __init__(self, inner, events, target=None, tol=0.0001, stall_limit=40, ffcount=None):
+    def __init__(self, inner, events, target=None, tol=0.0001, stall_limit=40, ffcount=None, max_checks=300):
         self.inner = inner
         self.events = events
         self.target = target
@@ -132,6 +132,8 @@ class RecordingBudget(SearchBudget):
         self.stalled = 0
         self.ffcount = ffcount      # callable: fitness invocations so far
         self.ff_at_stall_start = 0
+        self.max_checks = max_checks
+        self.nchecks = 0
 
     def is_done(self, tracker):
         done = bool(self.inner.is_done(tracker))
@@ -151,6 +153,11 @@ class RecordingBudget(SearchBudget):
             rk = [0, 0, 0]
         self.events.append({"e": "check", "count": count, "done": done, "hasbest": hasbest,
                             "c": rk[0], "tlo": rk[1], "thi": rk[2]})
+        self.nchecks += 1
+        if not done and self.nchecks >= self.max_checks:
+            # watchdog: far more checks than any budget of the driver needs
+            self.events.append({"e": "lasso", "checks": self.nchecks, "ffs": 1})
+            raise Stalled()
         # watchdog: the counter did not move over many consecutive checks
         if self.last == count and not done:
             if self.stalled == 0 and self.ffcount:
